@@ -1,1 +1,189 @@
-//! refpdf::ccitt — not written yet.
+//! refpdf::ccitt — reference CCITT fax *encoders* (ITU-T T.6 "Group 4" and T.4 one-dimensional
+//! "Modified Huffman") for producing CCITTFaxDecode test streams (ISO 32000-1 §7.4.6).
+//!
+//! Nothing here is derived from /repo. Group 4 is the third-party `fax` crate's encoder; the
+//! one-dimensional coder only strings together the run-length code words that the `fax` crate
+//! publishes (`fax::maps::{white,black}::encode`) in the order T.4 §4.1 prescribes. Both are
+//! validated in the unit tests against the `fax` crate's independent decoders.
+use fax::{maps, BitWriter, Color, VecWriter};
+
+/// A bilevel image; `rows[r][c] == true` means the pixel is **black**.
+#[derive(Clone, Debug, PartialEq, Eq)]
+pub struct Bitmap {
+    pub width: usize,
+    pub rows: Vec<Vec<bool>>,
+}
+
+impl Bitmap {
+    pub fn new(width: usize, rows: Vec<Vec<bool>>) -> Self {
+        assert!(rows.iter().all(|r| r.len() == width));
+        Bitmap { width, rows }
+    }
+
+    /// The decoded sample data a PDF CCITTFaxDecode filter must produce (§7.4.6, Table 11):
+    /// one bit per pixel, rows padded to a byte boundary, MSB first; with /BlackIs1 false
+    /// (the default) black pixels are 0 bits, with /BlackIs1 true they are 1 bits.
+    pub fn packed(&self, black_is_1: bool) -> Vec<u8> {
+        let mut out = Vec::new();
+        for row in &self.rows {
+            let mut acc = 0u8;
+            let mut n = 0;
+            for &black in row {
+                let bit = if black == black_is_1 { 1 } else { 0 };
+                acc = acc << 1 | bit;
+                n += 1;
+                if n == 8 {
+                    out.push(acc);
+                    acc = 0;
+                    n = 0;
+                }
+            }
+            if n > 0 {
+                // padding bits: zero
+                out.push(acc << (8 - n));
+            }
+        }
+        out
+    }
+}
+
+fn colour(black: bool) -> Color {
+    if black { Color::Black } else { Color::White }
+}
+
+/// T.6 (Group 4, /K -1) encoding with the end-of-facsimile-block marker (/EndOfBlock true),
+/// no EOLs, no byte alignment.
+pub fn encode_g4(bm: &Bitmap) -> Vec<u8> {
+    let mut enc = fax::encoder::Encoder::new(VecWriter::new());
+    for row in &bm.rows {
+        enc.encode_line(row.iter().map(|&b| colour(b)), bm.width as u16).unwrap();
+    }
+    enc.finish().unwrap().finish()
+}
+
+fn put_run(w: &mut VecWriter, black: bool, mut n: u16) {
+    let enc = |v: u16| if black { maps::black::encode(v) } else { maps::white::encode(v) }.expect("run code");
+    // T.4 §4.1.1: runs ≥ 64 are a make-up code (multiple of 64, the 2560 code repeated as
+    // needed) followed by a terminating code 0..63
+    while n >= 2560 {
+        w.write(enc(2560)).unwrap();
+        n -= 2560;
+    }
+    if n >= 64 {
+        w.write(enc(n & !63)).unwrap();
+        n &= 63;
+    }
+    w.write(enc(n)).unwrap();
+}
+
+/// T.4 one-dimensional (/K 0) encoding. Every line is alternating white/black runs starting
+/// with a (possibly empty) white run. `eol`: each line is preceded by an EOL code word
+/// (/EndOfLine true). `rtc`: six EOLs after the last line (/EndOfBlock true). No fill bits, no
+/// byte alignment (/EncodedByteAlign false).
+pub fn encode_g3_1d(bm: &Bitmap, eol: bool, rtc: bool) -> Vec<u8> {
+    let mut w = VecWriter::new();
+    for row in &bm.rows {
+        if eol {
+            w.write(maps::EOL).unwrap();
+        }
+        let mut black = false;
+        let mut i = 0;
+        while i < row.len() {
+            let mut n = 0u16;
+            while i < row.len() && row[i] == black {
+                n += 1;
+                i += 1;
+            }
+            put_run(&mut w, black, n);
+            black = !black;
+        }
+        if row.is_empty() {
+            put_run(&mut w, false, 0);
+        }
+    }
+    if rtc {
+        for _ in 0..6 {
+            w.write(maps::EOL).unwrap();
+        }
+    }
+    w.finish()
+}
+
+#[cfg(test)]
+mod tests {
+    use super::*;
+
+    fn bitmaps() -> Vec<Bitmap> {
+        let mut v = Vec::new();
+        // every bitmap with width*rows <= 12
+        for width in 1..=12usize {
+            for rows in 1..=3usize {
+                if width * rows > 12 {
+                    continue;
+                }
+                for bits in 0..(1u32 << (width * rows)) {
+                    let r = (0..rows).map(|y| (0..width).map(|x| bits >> (y * width + x) & 1 == 1).collect()).collect();
+                    v.push(Bitmap::new(width, r));
+                }
+            }
+        }
+        // wider rows with long runs (make-up codes, the 2560 extension)
+        for width in [63usize, 64, 65, 128, 200, 1728, 2559, 2560, 2561, 2700, 5300] {
+            for k in 0..4 {
+                let r = (0..3)
+                    .map(|y| {
+                        (0..width)
+                            .map(|x| match k {
+                                0 => false,
+                                1 => true,
+                                2 => (x / (7 + y)) % 2 == 1,
+                                _ => x > 70 + y && x < width - 1,
+                            })
+                            .collect()
+                    })
+                    .collect();
+                v.push(Bitmap::new(width, r));
+            }
+        }
+        v
+    }
+
+    fn rows_from_transitions(lines: &[Vec<u16>], width: usize) -> Vec<Vec<bool>> {
+        lines.iter().map(|t| fax::decoder::pels(t, width as u16).map(|c| c == Color::Black).collect()).collect()
+    }
+
+    #[test]
+    fn g4_against_fax_decoder() {
+        for bm in bitmaps() {
+            let enc = encode_g4(&bm);
+            let mut lines: Vec<Vec<u16>> = Vec::new();
+            fax::decoder::decode_g4(enc.iter().copied(), bm.width as u16, Some(bm.rows.len() as u16), |t| lines.push(t.to_vec()))
+                .unwrap_or_else(|| panic!("fax cannot decode G4 of {bm:?}"));
+            assert_eq!(rows_from_transitions(&lines, bm.width), bm.rows, "G4 w={}", bm.width);
+        }
+    }
+
+    #[test]
+    fn g3_1d_against_fax_decoder() {
+        for bm in bitmaps() {
+            let enc = encode_g3_1d(&bm, true, true);
+            let mut lines: Vec<Vec<u16>> = Vec::new();
+            fax::decoder::decode_g3(enc.iter().copied(), |t| lines.push(t.to_vec()))
+                .unwrap_or_else(|| panic!("fax cannot decode G3 of w={} {:?}", bm.width, &enc[..enc.len().min(16)]));
+            assert_eq!(lines.len(), bm.rows.len(), "G3 rows w={}", bm.width);
+            assert_eq!(rows_from_transitions(&lines, bm.width), bm.rows, "G3 w={}", bm.width);
+        }
+    }
+
+    #[test]
+    fn eol_free_form_is_the_eol_form_without_the_eols() {
+        // one row: the /EndOfLine false encoding is the run codes alone. T.4 Table 2: white run
+        // of 2 = 0111, black run of 3 = 10, white run of 1 = 000111
+        let bm = Bitmap::new(6, vec![vec![false, false, true, true, true, false]]);
+        let enc = encode_g3_1d(&bm, false, false);
+        // 0111 10 000111 -> 0111 1000 0111 0000
+        assert_eq!(enc, vec![0b0111_1000, 0b0111_0000]);
+        assert_eq!(bm.packed(false), vec![0b1100_0100]);
+        assert_eq!(bm.packed(true), vec![0b0011_1000]);
+    }
+}
